@@ -299,6 +299,8 @@ def race_cases(rng, thorough):
     cs += [{"mode": "bridge_race", "k": 4, "trials": 60 * m, "started": True, "own": True},
            {"mode": "bridge_race", "k": 8, "trials": 60 * m}]
     cs += [{"mode": "bridge_startrace", "k": 2, "trials": 150 * m}, {"mode": "bridge_startrace", "k": 3, "trials": 150 * m, "started": True}]
+    # closers released through a SPIN barrier (a channel broadcast staggers the wake-ups too much to hit a check-then-act latch)
+    cs += [{"mode": "spin_close", "side": 0, "k": 4, "trials": 4000 * m}] + [{"mode": "spin_close", "side": sd, "k": 4, "trials": 800 * m} for sd in (1, 2, 3)]
     cs += [{"mode": "stream_race", "k": 4, "trials": 300 * m}]
     cs += [{"mode": "storage_race", "k": 4, "trials": 60 * m}]
     cs += [{"mode": "session_race", "k": 4, "trials": 20 * m}]
@@ -419,7 +421,7 @@ def run(ctx, only_cases=None):
         pinfo = vlib.coq_properties("C16")
         vlib.coq_make(["Proofs/SideC16.vo"])
         vlib.proof_coverage(ctx, pinfo, "make -C coq Properties/C16.vo Proofs/SideC16.vo && coqc Properties/C16.v (Print Assumptions audit)",
-                            extra_obligations=16)
+                            extra_obligations=17)
     except vlib.Broken as b:
         broken = b
     ibin = None
@@ -542,7 +544,7 @@ def run(ctx, only_cases=None):
             nontriv.add(json.dumps(c, sort_keys=True))
         elif c["mode"] == "bridge_attach" and any(e["op"].startswith("attach") for e in c["events"]):
             nontriv.add(json.dumps(c, sort_keys=True))
-    trials = sum(o.get("trials", 0) for c, o in done if c["mode"].endswith("race"))
+    trials = sum(o.get("trials", 0) for c, o in done if c["mode"].endswith("race") or c["mode"] == "spin_close")
     samples = []
     for mode in ("dispose_hist", "tunnel_sched", "traffic_gate", "tunnel_start", "bridge_stall", "stream_queue", "fault_close", "bridge_attach", "res_mgr", "session_overlap", "bridge_throttle", "mapping_stats", "bridge_hung_backend", "tunnel_race"):
         for c, o in done:
